@@ -338,6 +338,102 @@ func genC09(repo string) (string, error) {
 		fmt.Fprintf(&b, "def %s : List String := %s\n", w.name, leanStrList(ops))
 	}
 
+	// ---- the kinds the generated arithmetic / comparison functions exist for ---------------------
+	for _, w := range []struct{ file, name string }{
+		{"runtime/vam/expr/genarithfuncs.go", "arithFuncKinds"},
+		{"runtime/vam/expr/gencomparefuncs.go", "compareFuncKinds"},
+	} {
+		gf, err := parseFile(repo, w.file)
+		if err != nil {
+			return "", err
+		}
+		fd, err := gf.funcDecl("", "main")
+		if err != nil {
+			return "", err
+		}
+		var kindsList []string
+		ast.Inspect(fd.Body, func(n ast.Node) bool {
+			rs, ok := n.(*ast.RangeStmt)
+			if !ok {
+				return true
+			}
+			if v, ok := identName(rs.Value); !ok || v != "typ" {
+				return true
+			}
+			if cl, ok := rs.X.(*ast.CompositeLit); ok {
+				for _, e := range cl.Elts {
+					if l, ok := strLit(e); ok {
+						kindsList = append(kindsList, l)
+					}
+				}
+			}
+			return true
+		})
+		if len(kindsList) == 0 {
+			return "", fmt.Errorf("%s: `for _, typ := range []string{…}` not recognised", w.file)
+		}
+		fmt.Fprintf(&b, "def %s : List String := %s\n", w.name, leanStrList(kindsList))
+	}
+	// vector.FormOf: the kinds that have a Form at all
+	vf, err := parseFile(repo, "vector/kind.go")
+	if err != nil {
+		return "", err
+	}
+	fd, err = vf.funcDecl("", "FormOf")
+	if err != nil {
+		return "", err
+	}
+	fcls, err := vxTypeSwitch(vf, fd.Body, "")
+	if err != nil {
+		return "", err
+	}
+	var flatKinds []string
+	for _, c := range fcls {
+		if strings.Contains(renderNode(vf, c.node), "FormFlat") {
+			for _, t := range c.types {
+				flatKinds = append(flatKinds, vxShort(t))
+			}
+		}
+	}
+	fmt.Fprintf(&b, "def formFlatKinds : List String := %s\n", leanStrList(flatKinds))
+	// vcache.Cache: the order of lock operations in lock / unlock / Fetch
+	cf, err := parseFile(repo, "runtime/vcache/cache.go")
+	if err != nil {
+		return "", err
+	}
+	for _, fn := range []string{"lock", "unlock", "Fetch"} {
+		fd, err := cf.funcDecl("Cache", fn)
+		if err != nil {
+			return "", err
+		}
+		var seq []string
+		ast.Inspect(fd.Body, func(n ast.Node) bool {
+			var call *ast.CallExpr
+			prefix := ""
+			switch x := n.(type) {
+			case *ast.DeferStmt:
+				call, prefix = x.Call, "defer "
+			case *ast.ExprStmt:
+				call, _ = x.X.(*ast.CallExpr)
+			case *ast.AssignStmt:
+				if len(x.Rhs) == 1 {
+					call, _ = x.Rhs[0].(*ast.CallExpr)
+				}
+			}
+			if call == nil {
+				return true
+			}
+			txt := renderNode(cf, call.Fun)
+			switch {
+			case strings.HasSuffix(txt, ".Lock"), strings.HasSuffix(txt, ".Unlock"), txt == "c.lock", txt == "c.unlock", txt == "NewObject":
+				seq = append(seq, prefix+txt)
+				return false
+			}
+			return true
+		})
+		fmt.Fprintf(&b, "def cache%sLockOps : List String := %s\n", strings.ToUpper(fn[:1])+fn[1:], leanStrList(seq))
+	}
+
 	// ---- pinned sources ------------------------------------------------------------------------------
 	pins, err := vxPins(repo, []vxPin{
 		{"runtime/vam/op/agg.go", "CountByString", "Pull"},
@@ -362,6 +458,47 @@ func genC09(repo string) (string, error) {
 		{"runtime/vam/op/scan.go", "Scanner", "run"},
 		{"runtime/vcache/loader.go", "loader", "loadDict"},
 		{"runtime/vcache/loader.go", "loader", "loadPrimitive"},
+		// expressions and operators mirrored by Model/VecExpr.lean
+		{"runtime/vam/expr/arith.go", "Arith", "eval"},
+		{"runtime/vam/expr/compare.go", "Compare", "eval"},
+		{"runtime/vam/expr/logic.go", "Not", "Eval"},
+		{"runtime/vam/expr/logic.go", "And", "Eval"},
+		{"runtime/vam/expr/logic.go", "Or", "Eval"},
+		{"runtime/vam/expr/logic.go", "", "EvalBool"},
+		{"runtime/vam/expr/coerce.go", "", "coerceVals"},
+		{"runtime/vam/expr/literal.go", "Literal", "Eval"},
+		{"runtime/vam/expr/genarithfuncs.go", "", "genFunc"},
+		{"runtime/vam/expr/genarithfuncs.go", "", "genLoop"},
+		{"runtime/vam/expr/genarithfuncs.go", "", "genExpr"},
+		{"runtime/vam/expr/gencomparefuncs.go", "", "genFunc"},
+		{"runtime/vam/expr/gencomparefuncs.go", "", "genExpr"},
+		{"runtime/vam/op/filter.go", "Filter", "Pull"},
+		{"runtime/vam/op/filter.go", "", "applyMask"},
+		{"runtime/vam/op/head.go", "Head", "Pull"},
+		{"runtime/vam/op/tail.go", "Tail", "tail"},
+		{"runtime/vam/op/yield.go", "Yield", "Pull"},
+		{"vector/kind.go", "", "FormOf"},
+		{"vector/kind.go", "", "KindOf"},
+		{"vector/bool.go", "", "BoolValue"},
+		{"vector/view.go", "View", "Serialize"},
+		{"runtime/sam/expr/eval.go", "Compare", "Eval"},
+		{"runtime/sam/expr/eval.go", "Add", "Eval"},
+		{"runtime/sam/expr/eval.go", "And", "Eval"},
+		{"runtime/sam/expr/eval.go", "Or", "Eval"},
+		{"runtime/sam/expr/eval.go", "Not", "Eval"},
+		{"runtime/sam/expr/coerce/coerce.go", "", "Equal"},
+		{"runtime/sam/expr/eval.go", "Equal", "Eval"},
+		{"runtime/sam/expr/boolean.go", "", "Comparison"},
+		{"runtime/sam/expr/boolean.go", "", "comparison"},
+		{"runtime/sam/expr/boolean.go", "", "CompareBool"},
+		{"runtime/sam/expr/boolean.go", "", "CompareInt64"},
+		{"runtime/sam/expr/boolean.go", "", "CompareString"},
+		{"runtime/sam/expr/filter.go", "filter", "Eval"},
+		{"compiler/kernel/expr.go", "Builder", "compileConstCompare"},
+		{"compiler/kernel/op.go", "Builder", "evalAtCompileTime"},
+		{"runtime/vcache/cache.go", "Cache", "lock"},
+		{"runtime/vcache/cache.go", "Cache", "unlock"},
+		{"runtime/vcache/cache.go", "Cache", "Fetch"},
 	})
 	if err != nil {
 		return "", err
